@@ -142,7 +142,27 @@ func genHostileFile(r *Rng) []Op {
 			file = append(file, be64b(math.Float64bits(float64(r.Intn(100))))...)
 		}
 	}
-	switch r.Intn(8) {
+	switch r.Intn(9) {
+	case 8: // a header longer than one 4 KiB page, in a file long enough to hold all of it
+		c := 330 + r.Intn(900)
+		f := append([]byte{}, hb[:12]...)
+		f = append(f, be32b(uint32(c))...)
+		off, step := 16+12*c, 1
+		for i := 0; i < c; i++ {
+			if r.Chance(1, 50) {
+				f = append(f, randBytes(r, 12)...)
+				continue
+			}
+			n := 2 + r.Intn(3)
+			f = append(f, be32b(uint32(off))...)
+			f = append(f, be32b(uint32(step))...)
+			f = append(f, be32b(uint32(n))...)
+			off += 12 * n
+			if i < 24 {
+				step *= 2
+			}
+		}
+		file = append(f, randBytes(r, r.Intn(200))...)
 	case 0: // truncated anywhere
 		file = file[:r.Intn(len(file)+1)]
 	case 1: // header claims more points than the file holds
